@@ -498,10 +498,13 @@ theorem mem_attrib_global {allLocal : Bool} {m : SlmMask} {k : Nat} {v : ChanVie
     · by_cases hz : startT m v = 0
       · rw [if_pos hz] at hi; cases hi
       · rw [if_neg hz] at hi
-        simp only [List.mem_map] at hi
-        obtain ⟨q', _, rfl⟩ := hi
-        obtain ⟨_, e2, _⟩ := hits_add_some.mp hh
-        cases e2
+        cases hh0 : v.slots.head? with
+        | none => rw [hh0] at hi; cases hi
+        | some s0 =>
+          rw [hh0] at hi
+          obtain ⟨q', _, rfl⟩ := List.mem_map.mp hi
+          obtain ⟨_, e2, _⟩ := hits_add_some.mp hh
+          cases e2
   · rintro ⟨rfl, rfl, rfl, e⟩
     exact ⟨_, .inl rfl, hits_add_none.mpr ⟨rfl, rfl, e, rfl, rfl⟩⟩
 
@@ -522,20 +525,21 @@ theorem mem_attrib_global_local {allLocal : Bool} {m : SlmMask} {k : Nat} {v : C
     · by_cases hz : startT m v = 0
       · rw [if_pos hz] at hi; cases hi
       · rw [if_neg hz] at hi
-        simp only [List.mem_map, List.mem_filter, List.mem_eraseDups] at hi
-        obtain ⟨q', ⟨hq1, hq2⟩, rfl⟩ := hi
-        obtain ⟨e1, e2, e3, e4, e5, e6⟩ := hits_add_some.mp hh
-        injection e2 with e2; subst e2
-        refine ⟨e5, e1.symm, e6, hz, e3, e4, ?_, by simpa using hq2⟩
         cases hh0 : v.slots.head? with
-        | none => rw [hh0] at hq1; simp at hq1
-        | some s0 => rw [hh0] at hq1; exact ⟨s0, rfl, hq1⟩
+        | none => rw [hh0] at hi; cases hi
+        | some s0 =>
+          rw [hh0] at hi
+          simp only [List.mem_map, List.mem_filter, List.mem_eraseDups] at hi
+          obtain ⟨q', ⟨hq1, hq2⟩, rfl⟩ := hi
+          obtain ⟨e1, e2, e3, e4, e5, e6⟩ := hits_add_some.mp hh
+          injection e2 with e2; subst e2
+          exact ⟨e5, e1.symm, e6, hz, e3, e4, ⟨s0, rfl, hq1⟩, by simpa using hq2⟩
   · rintro ⟨rfl, rfl, rfl, hne, e3, e4, ⟨s0, hs0, hq⟩, hm⟩
     refine ⟨NInstr.add v.basis (some q) k' 0 (some (startT m v)) 1, .inr ?_,
       hits_add_some.mpr ⟨rfl, rfl, e3, e4, rfl, rfl⟩⟩
-    rw [if_neg hne]
+    rw [if_neg hne, hs0]
     simp only [List.mem_map, List.mem_filter, List.mem_eraseDups]
-    exact ⟨q, ⟨by rw [hs0]; exact hq, by simpa using hm⟩, rfl⟩
+    exact ⟨q, ⟨hq, by simpa using hm⟩, rfl⟩
 
 /-- A channel only writes entries of its own position. -/
 theorem mem_nestedInstrsFrom {allLocal : Bool} {m : SlmMask} {i : NInstr} :
@@ -567,8 +571,10 @@ theorem chanInstrs_chan {allLocal : Bool} {m : SlmMask} {k : Nat} {v : ChanView}
       · exact .inr ⟨_, _, _, _, _, hi⟩
       · split at hi
         · cases hi
-        · obtain ⟨q', _, rfl⟩ := List.mem_map.mp hi
-          exact .inr ⟨_, _, _, _, _, rfl⟩
+        · split at hi
+          · cases hi
+          · obtain ⟨q', _, rfl⟩ := List.mem_map.mp hi
+            exact .inr ⟨_, _, _, _, _, rfl⟩
     · rcases List.mem_append.mp hi with hi | hi
       · split at hi
         · obtain ⟨q', _, rfl⟩ := List.mem_map.mp hi
